@@ -64,11 +64,14 @@ func TestVP_C15_ListenerFailure(t *testing.T) {
 		for i := range kinds {
 			kinds[i] = rapid.SampledFrom([]string{"gate", "gate", "done"}).Draw(t, "handlerKind")
 		}
+		// one more connection may have been handed to ServeConn before Serve was ever called on this Server (an
+		// application that adopts connections itself and starts listening later); its request waits for Done()
+		adopted := rapid.IntRange(0, 2).Draw(t, "earlyServeConn") == 0
 		idle := rapid.Bool().Draw(t, "idleConn")
 		withCtx := rapid.Bool().Draw(t, "withCtx")
 		gateAfterMs := rapid.SampledFrom([]int{0, 30, 130}).Draw(t, "gatesOpenAfterMs") // after the Shutdown call was made
-		desc := fmt.Sprintf("listeners=%d failing=%v in-flight handlers=%v idle keep-alive connection=%v ShutdownWithContext=%v gates open %dms after the Shutdown call",
-			nl, failing, kinds, idle, withCtx, gateAfterMs)
+		desc := fmt.Sprintf("listeners=%d failing=%v in-flight handlers=%v idle keep-alive connection=%v ShutdownWithContext=%v gates open %dms after the Shutdown call; connection adopted through ServeConn before the first Serve=%v",
+			nl, failing, kinds, idle, withCtx, gateAfterMs, adopted)
 
 		var running atomic.Int32
 		var returned atomic.Bool
@@ -99,6 +102,22 @@ func TestVP_C15_ListenerFailure(t *testing.T) {
 				}
 				ctx.SetBodyString("answer to " + p)
 			},
+		}
+		var earlyConn net.Conn
+		var earlyBr *bufio.Reader
+		if adopted {
+			pc := fasthttputil.NewPipeConns()
+			go s.ServeConn(pc.Conn1()) //nolint:errcheck
+			earlyConn = pc.Conn2()
+			defer earlyConn.Close()
+			earlyConn.Write([]byte("GET /warmup HTTP/1.1\r\nHost: h\r\n\r\n"))
+			earlyBr = bufio.NewReader(earlyConn)
+			earlyConn.SetReadDeadline(time.Now().Add(20 * time.Second))
+			resp, err := http.ReadResponse(earlyBr, nil)
+			if err != nil {
+				t.Fatalf("VP-INCONCLUSIVE: warm-up request on the adopted connection: %v", err)
+			}
+			io.Copy(io.Discard, resp.Body)
 		}
 		lns := make([]*vpC15FailLn, nl)
 		served := make([]chan error, nl)
@@ -146,6 +165,18 @@ func TestVP_C15_ListenerFailure(t *testing.T) {
 			go func() {
 				c.SetReadDeadline(time.Now().Add(40 * time.Second))
 				b, _ := io.ReadAll(c)
+				out <- b
+			}()
+			reqs = append(reqs, inflight{path, out})
+		}
+		if adopted {
+			kinds = append(kinds, "done")
+			path := fmt.Sprintf("/done%d", len(kinds)-1)
+			earlyConn.Write([]byte("GET " + path + " HTTP/1.1\r\nHost: h\r\n\r\n"))
+			out := make(chan []byte, 1)
+			go func() {
+				earlyConn.SetReadDeadline(time.Now().Add(40 * time.Second))
+				b, _ := io.ReadAll(earlyBr)
 				out <- b
 			}()
 			reqs = append(reqs, inflight{path, out})
